@@ -6,10 +6,10 @@ from checks import lib
 PROPERTY = "C10"
 META = dict(
     level="proof",
-    bounds="interpolation {Quaternion, R12} x {displacement-based, mixed, constrained (0,1,2) / (1,2) on both} x polynomial degree 1 x element count {1, 2}, "
+    bounds="interpolation {Quaternion, R12} x {displacement-based, mixed, constrained (0,1,2) / (1,2) / curvature sets (3,4,5) and (4,5)} x polynomial degree 1 x element count {1, 2}, "
            "reference configuration Q fully symbolic (nonzero nodal quaternions), state q symbolic (non-unit quaternions), rigid motion = symbolic "
-           "translation c and quaternion p_R != 0 applied to all nodes; Simo1986 material with concrete stiffnesses.  thorough: SE3 (p = 1) and p = 2 "
-           "(may stay inconclusive).  Outside: other materials, nelement > 2.",
+           "translation c and quaternion p_R != 0 applied to all nodes; Simo1986 material with concrete stiffnesses.  thorough: p = 2.  Outside: the SE3 interpolation (its Log_SE3 takes the arccos of "
+           "a term that is not the cosine of a registered angle: not encodable with the Weierstrass libm model), other materials, nelement > 2.",
     assumptions=["nodal quaternions nonzero", "the reference tangent length J = |B_Gamma_bar(Q)| is a sqrt atom (nonzero denominator)",
                  "Gauss points / weights and Lagrange basis values are the repo's own floats taken as exact rationals"],
     trusted_base=["Cramer / diagonal inverse shim for the element compliance matrix"],
@@ -18,11 +18,7 @@ META = dict(
 
 def _rod(h, form, interp, nel, p, Q="symbolic", seed=0):
     mixed = form.startswith("mixed")
-    cons = None
-    if form.endswith("c012"):
-        cons = [0, 1, 2]
-    elif form.endswith("c12"):
-        cons = [1, 2]
+    cons = [int(ch) for ch in form.split("_c")[1]] if "_c" in form else None      # e.g. "db_c345": twist and both bendings constrained
     return lib.make_rod(h, interp=interp, mixed=mixed, constraints=cons, p=p, nel=nel, Q=Q, seed=seed)
 
 
@@ -103,7 +99,7 @@ def cases(tier, seed):
     cs = []
     grid = [("Quaternion", 1), ("R12", 1)]
     if tier == "thorough":
-        grid += [("SE3", 1), ("Quaternion", 2), ("R12", 2)]
+        grid += [("Quaternion", 2), ("R12", 2)]
     for interp, p in grid:
         for form in FORMS:
             for nel in ((1, 2) if p == 1 else (1,)):
@@ -115,5 +111,10 @@ def cases(tier, seed):
                 if form in ("db", "mixed_c12") and (tier == "thorough" or (interp == "Quaternion" and nel == 1)):
                     for ax in range(3):
                         cs.append(Case(f"objectivity/{tag}/E_pot/axis{ax}", objectivity, dict(form=form, interp=interp, nel=nel, p=p, seed=seed, axis=ax), timeout=max(T, 400), hard=max(T, 400) * 3))
+                if form == "db":
+                    # curvature components in the internal-constraint set (the reference curvature enters the residual)
+                    for f2 in (("db_c345", "mixed_c45") if nel == 1 or tier == "thorough" else ()):
+                        cs.append(Case(f"reference/{interp}/p{p}/{f2}/nel{nel}", reference, dict(form=f2, interp=interp, nel=nel, p=p, seed=seed), timeout=T, hard=T * 8))
+                        cs.append(Case(f"objectivity/{interp}/p{p}/{f2}/nel{nel}", objectivity, dict(form=f2, interp=interp, nel=nel, p=p, seed=seed), timeout=T, hard=T * 8))
                 cs.append(Case(f"resultant/{tag}", resultant, dict(form=form, interp=interp, nel=nel, p=p, seed=seed), timeout=T, hard=T * 8))
     return cs
